@@ -17,7 +17,7 @@ MANIFEST = dict(
          "`self.changes = []` reset, the for-else clear, ack-before-parse, counter kind), so removing the reset or changing a slice changes the Lean term. "
          "Tie: translator facts + differential correspondence of the real long-lived handler objects (async via the real consume task on the virtual loop; "
          "threaded via stepped dispatch on a real GeckoSpa) + a sequential reference block kept by the harness (search)."
-         ' Since session 3: partial updates carry overlapping neighbour records (p, p+-1, p). Session 4: histories contain partial updates that arrive while a request holds the protocol lock (busy windows): application stays in arrival order and every update is acknowledged. The acknowledging handler and the apply callback of the awaitable client have no suspension point (partial_update_never_suspends over the regenerated skeletons; no_suspension_no_aw: every trace is one atomic block). Histories with a byte-identical report repeated after a refresh overwrote its positions; partial_update_path_state_inventory. Real refresh exchanges on the wire with a partial update queued just ahead of the answer, at several phases of the two pollers. Session 5: connected clients (the items of a pack\'s tables built over the block and watched, as a facade does) with partial updates and refreshes that put unusual stored values under them (an enumeration\'s byte at / around its label count, 255, first record of several); an exception of the implementation during a refresh is an observation with a failing input. The threaded rig\'s partial updates arrive as framed datagrams in a fake OS socket that truncates to the reader\'s buffer and are read by the engine\'s own receive step; maximal messages (255 records) in the corpus; largest_partial_update_fits_the_receive_buffer over the regenerated recvBufferSize. One message for every record count 0..255; count_follows_the_verb over the regenerated verbSkip facts (the translator admits only `received_bytes[<constant>:]`). Round 14: a real connected manager; behind the final segment of every refresh answer the spa reports a change inside the refreshed range - the client must hold the change (arrival order).',
+         ' Since session 3: partial updates carry overlapping neighbour records (p, p+-1, p). Session 4: histories contain partial updates that arrive while a request holds the protocol lock (busy windows): application stays in arrival order and every update is acknowledged. The acknowledging handler and the apply callback of the awaitable client have no suspension point (partial_update_never_suspends over the regenerated skeletons; no_suspension_no_aw: every trace is one atomic block). Histories with a byte-identical report repeated after a refresh overwrote its positions; partial_update_path_state_inventory. Real refresh exchanges on the wire with a partial update queued just ahead of the answer, at several phases of the two pollers. Session 5: connected clients (the items of a pack\'s tables built over the block and watched, as a facade does) with partial updates and refreshes that put unusual stored values under them (an enumeration\'s byte at / around its label count, 255, first record of several); an exception of the implementation during a refresh is an observation with a failing input. The threaded rig\'s partial updates arrive as framed datagrams in a fake OS socket that truncates to the reader\'s buffer and are read by the engine\'s own receive step; maximal messages (255 records) in the corpus; largest_partial_update_fits_the_receive_buffer over the regenerated recvBufferSize. One message for every record count 0..255; count_follows_the_verb over the regenerated verbSkip facts (the translator admits only `received_bytes[<constant>:]`). Round 14: a real connected manager; behind the final segment of every refresh answer the spa reports a change inside the refreshed range - the client must hold the change (arrival order). Round 15: the spa reports changes while the hand-shake is between the config file and the block and inside a slow handler of the completed connection; a report of two changes in front of the final segment of a refresh answer with a client handler that suspends on every event.',
     note="Trusted: Lean kernel, translator, correspondence harness. asyncio: no other task runs between async_handle and async_handled (neither suspends). "
          "Malformed STATP bodies (short records) and observers that raise inside the threaded callback are outside the property's quantifier and the model. "
          "A STATQ arriving at the client is outside the quantifier too (the async handler would then re-apply its last change list).",
@@ -398,9 +398,44 @@ def connected_refresh_then_update(ctx):
     rec = {"injected": [], "acks": 0}
 
     async def body(loop):
+        early = {"sent": 0}
+
+        def spa_reports_a_change():
+            """the spa changes one of its own values NOW (somebody at the keypad) and reports it to every client that has pinged"""
+            import builtins
+            sa = next(a for t, a in sim.structure.accessors.items() if a.read_write is not None and a.type == "Enum" and a.items
+                      and len([x for x in a.items if x]) >= 2 and t.startswith("Ud"))
+            labs = [x for x in sa.items if x]
+            real_print = builtins.print
+            builtins.print = lambda *a, **k: None
+            sim._send_structure_change = True
+            try:
+                sa.value = labs[0] if sa.value != labs[0] else labs[1]
+            finally:
+                sim._send_structure_change = False
+                builtins.print = real_print
+            queued = list(sim._socket._send_handlers)
+            sim._socket._send_handlers.clear()
+            live = [x for x in net.transports if not x.closed]
+            for hdl, _d in queued:
+                if live:
+                    net.push(live[-1], hdl.send_bytes)
+                    early["sent"] += 1
+
         class Man(GeckoAsyncSpaMan):
             async def handle_event(self, event, **kw):
-                pass
+                name = str(event)
+                # changes reported DURING start-up: while the handshake is still running, and while the client's own handler of
+                # "connection complete" is still busy (the consumers must already be there: nothing may be lost or go unacknowledged)
+                if "CONNECTION_GOT_CONFIG_FILES" in name and not early.get("a"):
+                    early["a"] = True
+                    spa_reports_a_change()
+                if "CONNECTION_SPA_COMPLETE" in name and not early.get("b"):
+                    early["b"] = True
+                    spa_reports_a_change()
+                    await asyncio.sleep(0.6)
+                elif rec.get("inject"):
+                    await asyncio.sleep(0.05)      # a client whose handler really suspends, on every event it is given
         sim = fakenet.make_sim(c10.SNAP)
         net = fakenet.Network(loop, sim, phases=[], seed=1)
         loop.network = net
@@ -418,7 +453,7 @@ def connected_refresh_then_update(ctx):
 
         def on_deliver(tr, payload):
             k = payload.find(b"<DATAS>STATV")
-            if k < 0 or len(payload) < k + 15 or payload[k + 13] != 0 or "range" not in last_req or m.facade is None:
+            if k < 0 or len(payload) < k + 15 or payload[k + 13] != 0 or "range" not in last_req or m.facade is None or not rec.get("inject"):
                 return
             start, length = last_req["range"]
             if length < 8:
@@ -431,14 +466,40 @@ def connected_refresh_then_update(ctx):
             h = GeckoPartialStatusBlockProtocolHandler.report_changes(sim._socket, [(pos, val)], parms=(tr.addr[0], tr.addr[1], dst, src))
             net.push(tr, h.send_bytes)
             rec["injected"].append([round(loop.time(), 2), pos, val.hex()])
+        def on_before_deliver(tr, payload):
+            """a report of TWO changes inside the range being refreshed arrives right IN FRONT of the final segment of the answer: the
+            refresh completes after it, so the refreshed data is what the client must end up with (arrival order)"""
+            k = payload.find(b"<DATAS>STATV")
+            if k < 0 or len(payload) < k + 15 or payload[k + 13] != 0 or "range" not in last_req or m.facade is None or not rec.get("inject"):
+                return
+            start, length = last_req["range"]
+            if length < 40:
+                return
+            sb = sim.structure.status_block
+            p1, p2 = start + 10, start + 24
+            changes = [(p1, bytes([sb[p1] ^ 0xFF, sb[p1 + 1] ^ 0x0F])), (p2, bytes([sb[p2] ^ 0xFF, sb[p2 + 1] ^ 0x0F]))]
+            dst = (payload[payload.find(b"<DESCN>") + 7:payload.find(b"</DESCN>")])
+            src = (payload[payload.find(b"<SRCCN>") + 7:payload.find(b"</SRCCN>")])
+            h = GeckoPartialStatusBlockProtocolHandler.report_changes(sim._socket, changes, parms=(tr.addr[0], tr.addr[1], dst, src))
+            tr.deliver(h.send_bytes, fakenet.SIM_ADDR)
+            rec.setdefault("in_front", []).append([round(loop.time(), 2), p1, p2])
         net.on_client_datagram = on_client
         net.on_deliver = on_deliver
+        net.on_before_deliver = on_before_deliver
         await m.__aenter__()
         for _ in range(800):
             await asyncio.sleep(0.05)
             if m.facade is not None:
                 break
         rec["connected"] = m.facade is not None
+        await asyncio.sleep(3.0)
+        rec["early_reports"] = early["sent"]
+        rec["early_acks"] = rec["acks"]
+        if m.facade is not None:
+            cb, sb = m.facade.spa.struct.status_block, sim.structure.status_block
+            rec["early_block_differs_at"] = [i for i in range(min(len(cb), len(sb))) if cb[i] != sb[i]][:6]
+        rec["inject"] = True            # from here on: a made-up change behind every refresh answer
+        rec["acks"] = 0
         t_end = loop.time() + 400
         checked = 0
         bad = []
@@ -453,12 +514,30 @@ def connected_refresh_then_update(ctx):
                 checked += 1
         rec["checked"] = checked
         rec["bad"] = bad[:3]
+        await asyncio.sleep(3.0)
+        rec["inject"] = False
+        await asyncio.sleep(3.0)
+        if m.facade is not None and rec.get("in_front"):
+            cb, sb = m.facade.spa.struct.status_block, sim.structure.status_block
+            touched = {q for _, p1, p2 in rec["in_front"] for q in (p1, p1 + 1, p2, p2 + 1)}
+            behind = {q for _, pos, _h in rec["injected"] for q in (pos, pos + 1)}
+            rec["in_front_bad"] = [{"position": q, "client holds": cb[q], "the refresh that arrived later brought": sb[q]} for q in sorted(touched - behind) if cb[q] != sb[q]][:4]
         await m.__aexit__(None, None, None)
     vloop.run_virtual(body, stable=True)
     ctx.count("evaluations", max(1, rec.get("checked", 0)))
     ctx.cov["connected_refresh_then_update"] = {"refreshes_followed_by_an_update": rec.get("checked", 0), "acknowledged": rec.get("acks")}
     if not rec.get("connected") or rec.get("checked", 0) < 2:
         ctx.obligation_broken("harness:connected-refresh-then-update", {"connected": rec.get("connected"), "checked": rec.get("checked")})
+    elif rec.get("early_block_differs_at") or rec.get("early_acks", 0) < rec.get("early_reports", 0):
+        ctx.violation("connected:update-during-start-up", {"kind": "connected-refresh-then-update"},
+                      "changes the spa reports while the connection is starting up (during the handshake; while the client's handler of the completed "
+                      "connection is busy) are acknowledged and end up in the client's block",
+                      {"reports": rec.get("early_reports"), "acknowledgements": rec.get("early_acks"), "block differs from the spa's at": rec.get("early_block_differs_at")})
+    elif rec.get("in_front_bad"):
+        ctx.violation("connected:update-in-front-of-a-refresh-end", {"kind": "connected-refresh-then-update"},
+                      "a report of two changes that arrives in front of the final segment of a refresh answer is applied as a whole before the refresh is "
+                      "installed: the client ends with the refreshed data (arrival order)",
+                      {"positions": rec["in_front_bad"], "reports": len(rec.get("in_front", []))})
     elif rec["bad"] or rec["acks"] < rec["checked"]:
         ctx.violation("connected:update-behind-a-refresh", {"kind": "connected-refresh-then-update"},
                       "after a refresh answer followed by a partial update of a position in its range the client holds the update (arrival order), and every update is acknowledged",
